@@ -559,6 +559,9 @@ pub fn run_pending(c: &PendingCase) -> CaseResult {
 
 pub fn run(ctx: &Ctx) {
     let tier = ctx.tier;
+    // delivery, byte-identical, when ONE interface read is sealed for many peers from one buffer (13 / 22 nodes; C10's family)
+    let large: Vec<super::c10::LargeCase> = tier.pick(vec![13usize], vec![12, 13, 22]).into_iter().map(|n| super::c10::LargeCase { n, mode: "switch".into(), plain: false }).collect();
+    sweep_list(ctx, "large_mesh_delivery", &large, SweepOpts { chunk: 1, ..Default::default() }, super::c10::run_large);
     let mut pend = vec![];
     for state in ["pending_initiator", "pending_responder", "unknown_sender"] {
         for msg_type in [0u8, 1, 2, 3, 0x10, 0xfe] {
@@ -625,6 +628,7 @@ pub fn replay(family: &str, case: &Value) -> Option<CaseResult> {
         "configured_names" => replay_with::<NegCase>(case, run_names),
         "superseded_connection" => replay_with::<SupersededCase>(case, run_superseded),
         "mesh_injection" => replay_with::<MeshCase>(case, |c| run_mesh(c, Tier::Thorough)),
+        "large_mesh_delivery" => replay_with::<super::c10::LargeCase>(case, super::c10::run_large),
         "unestablished_sender" => replay_with::<PendingCase>(case, run_pending),
         _ => None,
     }
